@@ -505,6 +505,33 @@ pub fn gen(g: &mut Gen) {
         }
     }
 
+    // ---- the top of the size ranges, in every tier ------------------------------------------------
+    for k in [9usize, 17, 33] {
+        let need = 2 * ((k + 1) / 2);
+        for len in [need, need - 1, need + 1] {
+            let src = fps(g, len);
+            let (p0, p1) = (rand_fp(g), rand_fp(g));
+            g.op(format!("@ draw {} {} {} {}", p0, p1, k, show_elems(&src)));
+            g.count(&format!("top-of-range.draw.k={}", k));
+        }
+    }
+    for samples in [9usize, 13, 17] {
+        let n = 5;
+        let need = 2 * ((n + 1) / 2);
+        let mean = fps(g, n);
+        let cov = covariance(g, n, true);
+        for len in [samples * need, samples * need - 1] {
+            let src = fps(g, len);
+            for (via, names) in [("matrix", ["samples", "features"]), ("tensor", ["samples", "features"]), ("tensor", ["b", "a"])] {
+                g.op(format!(
+                    "@ mv {} {} mean={} cov={} src={} names={},{} via={}",
+                    n, samples, show_elems(&mean), show_elems(&cov), show_elems(&src), names[0], names[1], via
+                ));
+            }
+            g.count(&format!("top-of-range.mv.N=5.samples={}", samples));
+        }
+    }
+
     // ---- constructor validation -------------------------------------------------------------------
     for mr in 1..=3 {
         for mc in 1..=2 {
